@@ -23,6 +23,10 @@ type PropConfig struct {
 	Replay   func(r *Run, o *Obligation) *ReplayResult
 	// Extra generates additional obligations (e.g. call-site scans, corpus).
 	Extra func(r *Run)
+	// Corpus: the property also speaks about generated code; packages are then
+	// loaded through the scratch corpus module (which replaces templ by the repository).
+	Corpus     bool
+	CorpusOnly []string // quick tier: restrict the corpus to these directories (empty = all)
 }
 
 type Run struct {
@@ -34,6 +38,7 @@ type Run struct {
 	workdir  string
 	seed     int
 	t0       time.Time
+	corpus   *Corpus
 	bounded  []map[string]interface{}
 	extraCov map[string]interface{}
 }
@@ -84,6 +89,7 @@ func cmdCheck(args []string) int {
 		defer os.RemoveAll(r.workdir)
 	}
 	e := NewEngine(absRepo)
+	e.prop = cfg.ID
 	r.e = e
 	if err := e.langs.LoadDir(filepath.Join(*verif, "contracts", "lang")); err != nil {
 		fmt.Fprintln(os.Stderr, "lang:", err)
@@ -95,7 +101,26 @@ func cmdCheck(args []string) int {
 		}
 		return 2
 	}
-	if err := e.Load(cfg.Packages...); err != nil {
+	var corpus *Corpus
+	if cfg.Corpus {
+		only := map[string]bool{}
+		if tier.Name == "quick" {
+			for _, d := range cfg.CorpusOnly {
+				only[d] = true
+			}
+		}
+		var err error
+		corpus, err = r.BuildCorpus(only)
+		defer corpus.Remove()
+		if err == nil {
+			err = r.LoadCorpus(corpus)
+		}
+		if err != nil {
+			fmt.Printf("CHECK-ERROR govc: cannot regenerate / load the template corpus: %v\n", err)
+			return 2
+		}
+		r.corpus = corpus
+	} else if err := e.Load(cfg.Packages...); err != nil {
 		// The tree does not build with hooks on: that is a broken check environment, report as violation of the check's premise
 		fmt.Printf("CHECK-ERROR govc: cannot load packages (the tree does not build with -tags=verif): %v\n", err)
 		return 2
@@ -124,7 +149,12 @@ func cmdCheck(args []string) int {
 	if cfg.Extra != nil {
 		cfg.Extra(r)
 	}
+	tGen := time.Since(r.t0).Seconds()
 	e.Discharge(tier, filepath.Join(r.workdir, "smt"))
+	r.extraCov["vc_generation_s"] = round2(tGen)
+	if os.Getenv("GOVC_TIMING") != "" {
+		fmt.Printf("timing: load+vcgen %.1fs, discharge %.1fs, %d obligations\n", tGen, time.Since(r.t0).Seconds()-tGen, len(e.obls))
+	}
 	return r.report(*updateLock, *verbose, *noEvidence)
 }
 
@@ -422,6 +452,19 @@ func (r *Run) fail(viol []*Failure, noEvidence bool, cov map[string]interface{})
 		replayDir = filepath.Join(rd, r.cfg.ID)
 	}
 	os.MkdirAll(replayDir, 0o755)
+	sort.SliceStable(viol, func(i, j int) bool { return viol[i].Name < viol[j].Name })
+	const maxReported = 25
+	if len(viol) > maxReported {
+		fmt.Printf("govc: %d failed obligations; reporting the first %d (all are listed in the evidence file)\n", len(viol), maxReported)
+		if cov != nil {
+			var all []string
+			for _, f := range viol {
+				all = append(all, f.Name)
+			}
+			cov["failed_obligations"] = all
+		}
+		viol = viol[:maxReported]
+	}
 	for _, f := range viol {
 		var rr *ReplayResult
 		if f.Obl != nil && r.cfg.Replay != nil {
